@@ -337,6 +337,62 @@ class Holder:
     bs: List[Base] = field(default_factory=list, metadata={"type": "Element", "name": "bb"})
 
 
+@dataclass
+class DerivedB(Base):
+    """Subclass in ANOTHER namespace: the inherited field keeps the namespace of the class that declares it."""
+
+    class Meta:
+        name = "derivedb"
+        namespace = NS_B
+
+    w: Optional[int] = field(default=None, metadata={"type": "Element"})
+
+
+@dataclass
+class Dup:
+    """The same element name bound to two fields of different types (first and a later position)."""
+
+    class Meta:
+        name = "dup"
+
+    code: int = field(default=0, metadata={"type": "Element"})
+    label: Optional[str] = field(default=None, metadata={"type": "Element"})
+    alt_code: Optional[str] = field(default=None, metadata={"type": "Element", "name": "code"})
+
+
+@dataclass
+class Numeric:
+    value: int = field(default=0, metadata={"type": "Element"})
+
+
+@dataclass
+class Textual:
+    value: str = field(default="", metadata={"type": "Element"})
+
+
+@dataclass
+class UnionModels:
+    """Union of two models with identical element names but different value types."""
+
+    class Meta:
+        name = "um"
+
+    item: Optional[Union[Numeric, Textual]] = field(default=None, metadata={"type": "Element"})
+    items: List[Union[Numeric, Textual]] = field(default_factory=list, metadata={"type": "Element", "name": "it"})
+
+
+@dataclass
+class NsAttrParent:
+    """A namespace-qualified attribute on a NON-root element."""
+
+    class Meta:
+        name = "nap"
+        namespace = NS_B
+
+    child: Optional[NsAttr] = field(default=None, metadata={"type": "Element", "name": "na"})
+    kids: List[NsAttr] = field(default_factory=list, metadata={"type": "Element", "name": "k"})
+
+
 # --------------------------------------------------------------------------- wildcards and attributes
 @dataclass
 class Wild:
@@ -403,7 +459,7 @@ class Temporal:
 
 
 ALL_MODELS = [Basic, TextAttr, TextStr, ReqText, Lists, TokenLists, Frozen, Nillable, NilChild, NilParent, Child, ParentA, ParentB, NsAttr, Unqualified,
-              Sequential, Wrapped, Formats, Unions, Enums, QNames, Alpha, Compound, CompoundSingle, Base, Derived, Sibling, Holder,
+              Sequential, Wrapped, Formats, Unions, Enums, QNames, Alpha, Compound, CompoundSingle, Base, Derived, Sibling, DerivedB, Dup, Numeric, Textual, UnionModels, NsAttrParent, Holder,
               Wild, WildList, Mixed, AnyTyped, Defaults, Temporal]
 
 
